@@ -62,6 +62,11 @@ impl<T> ArcSwap<T> {
     pub uninterp spec fn cur(&self) -> T;
     #[verifier::external_body]
     pub fn load(&self) -> (r: Arc<T>) ensures *r == self.cur() { unimplemented!() }
+    // a store is an effect on &self: it is guarded by a capability that the caller's contract must grant (DESIGN 3.4b)
+    pub uninterp spec fn may_store(&self, v: T) -> bool;
+    #[verifier::external_body]
+    pub fn store(&self, v: Arc<T>) requires self.may_store(*v), // [store]
+    { unimplemented!() }
 }
 // opaque synchronisation types that only appear as struct fields
 #[verifier::external_body] pub struct AtomicU8 { _p: u8 }
